@@ -768,8 +768,11 @@ int dispatch_printed_messages(const char* messages,
 
                 // for bundles, send each element separately
                 // for non-bundles, send all elements at once
+                // (a message without arguments is sent once; the iterator
+                // does not advance for it)
                 for(size_t arr_idx = 0;
-                    itr.i < (size_t)std::max(nargs,1) && ok; ++arr_idx)
+                    (nargs ? itr.i < (size_t)nargs : !arr_idx) && ok;
+                    ++arr_idx)
                 {
                     // this will fail for arrays of arrays,
                     // since it only copies one arg val
@@ -792,7 +795,7 @@ int dispatch_printed_messages(const char* messages,
                             rtosc_arg_val_itr_next(&itr2);
                         }
                     }
-                    STACKALLOC(rtosc_arg_t, vals, val_max);
+                    STACKALLOC(rtosc_arg_t, vals, val_max ? val_max : 1);
                     STACKALLOC(char, argstr, val_max+1);
 
                     for(i = 0;
